@@ -50,6 +50,27 @@ pub fn crc16_arc(data: &[u8]) -> u16 {
     crc
 }
 
+/// A short hash tag whose slot is `slot` (table built once per process by enumeration).
+pub fn tag_for_slot(slot: usize) -> Vec<u8> {
+    static TABLE: std::sync::OnceLock<Vec<Vec<u8>>> = std::sync::OnceLock::new();
+    let t = TABLE.get_or_init(|| {
+        let mut table: Vec<Vec<u8>> = vec![vec![]; 16384];
+        let mut missing = 16384usize;
+        let mut i = 0u64;
+        while missing > 0 {
+            let cand = format!("b{}", i).into_bytes();
+            let s = (crc16_xmodem(&cand) as usize) % 16384;
+            if table[s].is_empty() {
+                table[s] = cand;
+                missing -= 1;
+            }
+            i += 1;
+        }
+        table
+    });
+    t[slot % 16384].clone()
+}
+
 pub fn lock_slot_of(key: &[u8]) -> usize {
     (crc16_arc(key) as usize) % 16384
 }
